@@ -63,7 +63,10 @@ fn jstr(s: &str) -> String {
 fn main() {
     let args: Vec<String> = std::env::args().collect();
     if args.len() < 3 { eprintln!("usage: replay <oracle> --search [--seed N] [--all] | --case <case>"); std::process::exit(2); }
-    let name = &args[1];
+    // an oracle name may carry a filter: "c18_parsers:parse_rule" keeps only the cases that contain it
+    let full = args[1].clone();
+    let (base, filter) = match full.split_once(':') { Some((b, f)) => (b.to_string(), Some(f.to_string())), None => (full.clone(), None) };
+    let name = &base;
     let (_, en, chk) = match oracles().into_iter().find(|o| o.0 == name) {
         Some(o) => o, None => { eprintln!("unknown oracle {}", name); std::process::exit(2); } };
     panic::set_hook(Box::new(|_| {}));
@@ -82,7 +85,8 @@ fn main() {
         if args[k] == "--all" { all = true; }
         k += 1;
     }
-    let cases = en(seed);
+    let mut cases = en(seed);
+    if let Some(f) = &filter { cases.retain(|c| c.starts_with(f.as_str())); }
     let mut fails = 0;
     let mut shown = 0;
     for c in &cases {
